@@ -38,6 +38,10 @@ var c07Scalars = []*jval{
 	{kind: "false"},
 }
 
+// member names: plain, and names whose JSON text needs escapes (control characters, quote, backslash, HTML-sensitive,
+// non-ASCII, DEL) - a member name is a JSON string like any other
+var c07Keys = []string{"a", "b", "k\u0007", "q\"\\", "<&>", "\u00e9\u2028", "d\u007f\u001b"}
+
 func (v *jval) text(b *bytes.Buffer) {
 	switch v.kind {
 	case "obj":
@@ -197,7 +201,7 @@ func genVal(r *rand.Rand, depth int) *jval {
 		o := &jval{kind: "obj"}
 		used := map[string]bool{}
 		for i := 0; i < n && i < 2; i++ {
-			k := []string{"a", "b"}[r.Intn(2)]
+			k := c07Keys[r.Intn(len(c07Keys))]
 			if used[k] {
 				continue
 			}
@@ -220,8 +224,8 @@ func genDoc(r *rand.Rand) *jval {
 	if r.Intn(20) == 0 {
 		n = 0
 	}
-	keys := []string{"a", "b"}
-	r.Shuffle(2, func(i, j int) { keys[i], keys[j] = keys[j], keys[i] })
+	keys := append([]string{}, c07Keys...)
+	r.Shuffle(len(keys), func(i, j int) { keys[i], keys[j] = keys[j], keys[i] })
 	for i := 0; i < n; i++ {
 		o.keys = append(o.keys, keys[i])
 		o.vals = append(o.vals, genVal(r, 3))
@@ -288,7 +292,7 @@ func TestC07(t *testing.T) {
 	}
 	seed, _ := strconv.ParseInt(os.Getenv("VERIF_SEED"), 10, 64)
 	r := rand.New(rand.NewSource(seed + 7))
-	res := c07Result{Failures: map[string]int{}, Examples: map[string]string{}, Scope: "JSON documents with an object at top level, depth <= 4, <= 2 members per object (keys a,b), <= 3 elements per array, scalars from a pool of 25 (incl. numbers beyond float64 and uint64 range, exponent form, strings with brackets, braces, commas, quotes, backslashes, HTML-sensitive and escaped characters, control and non-ASCII characters); seeded sample"}
+	res := c07Result{Failures: map[string]int{}, Examples: map[string]string{}, Scope: "JSON documents with an object at top level, depth <= 4, <= 2 members per object (member names from a pool of 7 incl. names that need JSON escapes: control characters, quote, backslash, HTML-sensitive, non-ASCII, DEL), <= 3 elements per array, scalars from a pool of 25 (incl. numbers beyond float64 and uint64 range, exponent form, strings with brackets, braces, commas, quotes, backslashes, HTML-sensitive and escaped characters, control and non-ASCII characters); seeded sample"}
 	seen := map[string]bool{}
 	for i := 0; i < n; i++ {
 		d := genDoc(r)
